@@ -136,6 +136,19 @@ def gen_cases(rng, full):
             continue
         seen.add(m)
         add("192.0.2.77/%s" % ip4(m), spec("mask", 4, "192.0.2.77", mask=ip4(m)), [("192.0.2.77", False)])
+    # masks built from the octets a contiguity test looks at: every combination of {0, 1, 128, 254, 255} (625 masks; 5 of them
+    # are contiguous) - leading zero octets, holes in any octet, trailing ones
+    import itertools
+    octs = [0, 1, 128, 254, 255]
+    combos = [c for c in itertools.product(octs, repeat=4)]
+    if not full:
+        combos = [c for c in combos if c[0] == 0] + rng.sample([c for c in combos if c[0] != 0], 60)
+    for c in combos:
+        m = (c[0] << 24) | (c[1] << 16) | (c[2] << 8) | c[3]
+        if m in seen:
+            continue
+        seen.add(m)
+        add("10.20.30.40/%s" % ip4(m), spec("mask", 4, "10.20.30.40", mask=ip4(m)), [("10.20.30.40", False), ("10.21.30.40", False), ("9.20.0.1", False)])
     add("192.0.2.0/255.255.0.254", spec("mask", 4, "192.0.2.0", mask="255.255.0.254"), [("192.0.2.1", False)])
     add("2001:db8::/255.255.255.0", spec("mask", 6, "2001:db8::", mask="255.255.255.0"), [("2001:db8::1", True)])
     add("192.0.2.0/mask", spec("mask", 4, "192.0.2.0", okMask=False), [("192.0.2.1", False)])
